@@ -41,6 +41,18 @@ theorem C10_eval_limit_monotone_seq {s s' : Nat} (hle : s ≤ s') (n : Nat) (t1 
   · rw [← heq]; exact h
   · rw [h] at hso; cases hso
 
+/-- **C10 eval_limit_monotone, whole programs.**  If the model's `evalProgram` (load, evaluate,
+    deep-evaluate, manifest – what the C02 check compares with the implementation) does not answer
+    `StackOverflow` under limit `s`, it gives the very same answer and final store under every
+    `s' ≥ s`. -/
+theorem C10_evalProgram_limit_monotone {s s' : Nat} (hle : s ≤ s') (fuel : Nat) (e : Expr)
+    (h : (evalProgram { maxStack := s } fuel e).1 ≠ showErr .stackOverflow) :
+    evalProgram { maxStack := s' } fuel e = evalProgram { maxStack := s } fuel e := by
+  rw [evalProgram_eq, evalProgram_eq] at *
+  rcases (Rel.progOf hle fuel e).h {} with heq | ⟨st', hso⟩
+  · rw [heq]
+  · rw [hso] at h; exact absurd rfl h
+
 /-! Non-vacuity: the limit matters.  Comparing `[t0] == [t0]` needs one frame
     (`CompareArrayItem`): under limit 0 it is a stack overflow, under limit 1 it is `true`; the
     theorem then gives the same value under limit 5 (checked independently by evaluation). -/
@@ -61,3 +73,5 @@ open Rsj.Eval in
 #print axioms C10_eval_limit_monotone_any
 open Rsj.Eval in
 #print axioms C10_eval_limit_monotone_seq
+open Rsj.Eval in
+#print axioms C10_evalProgram_limit_monotone
